@@ -469,3 +469,58 @@ func Harness_C16_BatchCMD() {
 		zzsym.Reach("upsert")
 	}
 }
+
+// c16StageAny stages one of the five membership commands with symbolic arguments and reports
+// whether the step is a delete/re-create boundary for the row `before`, and whether it is a Hide.
+func c16StageAny(env *c16Env, tag string, before UserChannelMembership) (staged, boundary, hide bool) {
+	var err error
+	switch zzsym.Choice(tag+".command", 5) {
+	case 0:
+		err = env.batch.AdvanceUserChannelMembershipReadSeq(c16HashSlot, "u", c16Key, zzsym.U64(tag+".readSeq"), zzsym.I64(tag+".updatedAt"))
+	case 1:
+		err = env.batch.ActivateUserChannelMembership(c16HashSlot, "u", c16Key, zzsym.I64(tag+".activatedAt"), zzsym.I64(tag+".updatedAt"))
+	case 2:
+		err = env.batch.HideUserChannelMembership(c16HashSlot, "u", c16Key, zzsym.U64(tag+".deletedToSeq"), zzsym.I64(tag+".updatedAt"))
+		hide = true
+	case 3:
+		next := c16Row(tag + ".upsert")
+		err = env.batch.UpsertUserChannelMembership(c16HashSlot, next)
+		boundary = before.Tombstone && !next.Tombstone && next.SourceVersion > before.SourceVersion
+	default:
+		incoming := c16Row(tag + ".ensure")
+		err = env.batch.EnsureUserChannelMembership(c16HashSlot, incoming)
+		boundary = incoming.SourceVersion > before.SourceVersion && before.SourceVersion != 0
+	}
+	return err == nil, boundary, hide
+}
+
+// Harness_C16_BatchHistory: two arbitrary membership commands staged in one batch and applied in
+// order on one commit state (the second op sees what the first one wrote through the overlay).
+// Unless a step is a boundary, no cursor ends up below where it started.
+func Harness_C16_BatchHistory() {
+	env := c16NewEnv()
+	start := c16Row("existing")
+	env.seedMembership(start, true)
+	staged1, boundary1, hide1 := c16StageAny(env, "step1", start)
+	if staged1 {
+		zzsym.Assert(len(env.batch.ops) == 1, "C16: first command staged a wrong number of ops")
+		zzsym.Assert(env.batch.ops[0].apply(context.Background(), env.state, engine.ZZC16DetachedBatch()) == nil, "C16: first op failed")
+	}
+	mid, ok := env.storedMembership()
+	zzsym.Assert(ok, "C16: row disappeared after the first command")
+	staged2, boundary2, hide2 := c16StageAny(env, "step2", mid)
+	if staged2 {
+		last := len(env.batch.ops) - 1
+		zzsym.Assert(env.batch.ops[last].apply(context.Background(), env.state, engine.ZZC16DetachedBatch()) == nil, "C16: second op failed")
+	}
+	end, ok := env.storedMembership()
+	zzsym.Assert(ok, "C16: row disappeared after the second command")
+	zzsym.Reach("two-steps")
+	anyBoundary := boundary1 || boundary2
+	zzsym.Assert(anyBoundary || (end.ReadSeq >= mid.ReadSeq && mid.ReadSeq >= start.ReadSeq), "C16: ReadSeq moved backwards in a boundary-free history")
+	zzsym.Assert(anyBoundary || (end.DeletedToSeq >= mid.DeletedToSeq && mid.DeletedToSeq >= start.DeletedToSeq), "C16: DeletedToSeq moved backwards in a boundary-free history")
+	zzsym.Assert(anyBoundary || (end.UpdatedAt >= mid.UpdatedAt && mid.UpdatedAt >= start.UpdatedAt), "C16: UpdatedAt moved backwards in a boundary-free history")
+	zzsym.Assert(anyBoundary || hide1 || hide2 || end.ActivatedAt >= start.ActivatedAt, "C16: ActivatedAt moved backwards in a history without boundary or Hide")
+	zzsym.Assert(end.SourceVersion >= mid.SourceVersion && mid.SourceVersion >= start.SourceVersion, "C16: source version moved backwards")
+	c16ObserveRow("c16.history", end)
+}
